@@ -65,12 +65,18 @@ pub fn record(a: &Args) -> Report {
     let mut rng = rng_from(seed, 3000 + sc);
     writeln!(f, "{}", json!({"ev": "Reset"})).unwrap();
     // groups: a main group, a group differing only in threshold, one only in epoch, one in measurement
-    let t0: u32 = match sc % 6 {
-      0 => 1,
-      1 => 2,
-      2 => rng.gen_range(3..8),
-      3 => rng.gen_range(8..=maxt.max(9).min(32)),
-      _ => rng.gen_range((maxt / 2).max(2)..=maxt),
+    // thresholds are swept, not sampled: scenario k uses t = k+1 up to `--sweep`, then large ones
+    let sweep = a.u64("sweep", 0);
+    let t0: u32 = if sc < sweep {
+      sc as u32 + 1
+    } else {
+      match sc % 6 {
+        0 => 1,
+        1 => 2,
+        2 => rng.gen_range(3..8),
+        3 => rng.gen_range(8..=maxt.max(9).min(32)),
+        _ => rng.gen_range((maxt / 2).max(2)..=maxt),
+      }
     };
     let n0 = block_len(&mut rng);
     let m0 = rand_bytes(&mut rng, n0);
